@@ -160,6 +160,12 @@ def run(ctx):
             for use in ('flip', 'library'):
                 for _ in range(max(3, int(3 * B))):
                     do(ctx, 'ctor_fresh', [be, what, rng.randint(1, 4), rng.randrange(10 ** 6), use], nontrivial=('cf', be, what, use, ctx.res.evaluations))
+    # LARGE registers: byte, word and cache-line boundaries of every packed or vectorised representation (8, 9, 16, 17, 33, 64, 65 qubits); model correspondence only
+    for N in gen.BIG:
+        for be in backends:
+            n = rng.choice([N, rng.randint(1, min(N, 9))])
+            mask = None if n == N else gen.rmask(rng, N, n)[0]
+            do(ctx, 'tr_corr', [be, gen.rmap(rng, ctx.model, n), mask, gen.rplist(rng, N, 4)], nontrivial=('big', be, N))
     for _ in range(int(500 * B)):
         N = rng.randint(1, 6)
         n = rng.randint(1, N)
